@@ -13,8 +13,9 @@ def check(pid, category, text, note, technique, design):
 
 check("C01", "exploration",
       "Bounded exhaustive exploration of (operation, payload) pairs: every operation of the edit space (ordered item "
-      "sequences at 12 focus hosts over a schema that contains each construct the generator distinguishes, plus the covering operations of the C07 schema feature lattice) is really "
-      "generated, compiled with rustc and run with serde_json; every conforming payload vector (full product, or all "
+      "sequences at 12 focus hosts over a schema that contains each construct the generator distinguishes, plus the covering operations of the C07 schema feature lattice, plus a pack of operations whose fields / fragments "
+      "carry @skip / @include, evaluated by the reference executor through the Boolean variables they read; single-item operations and the "
+      "packs also under a second option set) is really generated, compiled with rustc and run with serde_json; every conforming payload vector (full product, or all "
       "vectors within deviation bound 2 of the default) must deserialise and re-serialise to the same normal form. "
       "Exhaustive within the stated bounds, silent about operations and payload values outside them.",
       "Trusted: the Python reference executor (CollectFields) and normal form; rustc and serde as the semantics of the "
@@ -26,7 +27,8 @@ check("C06", "exploration",
       "Exhaustive single-point invalidation: every valid operation of the bounded operation space x every applicable "
       "instance of the ten invalidating edits at every selection set (any depth, inside named and inline fragments, on "
       "object / interface / union parents; plus document-level edits and schema variants without a mutation / "
-      "subscription root). The real generator must never return code for a document the reference validator rejects.",
+      "subscription root, incl. one whose `schema {}` block omits them while plain types carry the conventional names; a sample of every edit "
+      "kind again under three other option sets). The real generator must never return code for a document the reference validator rejects.",
       "Trusted: the reference validator (the ten rules of the property, from the GraphQL spec text). Only edits it "
       "confirms as invalidating are counted.",
       "bounded exhaustive enumeration of invalidating edits x positions against the real validator/generator",
@@ -34,7 +36,8 @@ check("C06", "exploration",
 
 check("C13", "model_checking",
       "The space is finite and enumerated completely: all 62 type expressions of list depth <= 4 x every kind of named "
-      "type x {response field, variable, input field, @oneOf member} x {SDL, introspection JSON}. The model is the "
+      "type x {response field, variable, input field (also with a schema default), @oneOf member, field of an object that narrows "
+      "an interface's declaration} x {SDL, introspection JSON, SDL under rust normalization + skip-none}. The model is the "
       "structural modifier rule; the emitted field types are read from the real generator's token stream; the model's "
       "verdict is then validated on compiled code (rustc + serde) by injecting a null at every nesting level.",
       "Trusted: syn's parse of the emitted tokens; rustc/serde for the conformance runs. ID response fields under a list "
@@ -44,8 +47,10 @@ check("C13", "model_checking",
 
 check("C17", "fault_enumeration",
       "Every input of an adversarial grammar (spread cycles of length 1-6 on every kind of type, with / without "
-      "__typename, direct or through fields, used or unused; input-type cycles; nesting to depth 64; degenerate SDL and "
-      "JSON schemas; every byte-prefix and single-token deletion of seed documents and schemas) is run in an isolated "
+      "__typename, direct or through fields, used or unused or entered from outside the cycle, object fragments hopping through an "
+      "interface field in three definition orders; input-type cycles; nesting to depth 64; degenerate SDL and "
+      "JSON schemas; every byte-prefix and single-token deletion of seed documents and schemas; the structural families also under two other "
+      "option sets) is run in an isolated "
       "worker that announces the case before starting it; death by signal, abort or a hang is a violation.",
       "Trusted: the worker's BEGIN/answer protocol; a 10 s wall limit stands for 'loops'. The generator runs on the "
       "worker's main thread (8 MB stack).",
@@ -53,7 +58,9 @@ check("C17", "fault_enumeration",
       "DESIGN.md 4 C17")
 
 check("C08", "model_checking",
-      "Explicit-state search over the real process: BFS over call histories to the fixpoint of reachable cache states "
+      "Explicit-state search over the real process (call alphabet: valid pairs, the same file by other spellings and through symlinks, "
+      "look-alike paths, cross pairs, missing / unparsable / wrong-extension files, queries that parse but fail validation against "
+      "their own and a look-alike schema, derive-mode calls for two operations of one file, other options): BFS over call histories to the fixpoint of reachable cache states "
       "(state = content of both process-wide caches read through hook H1), all histories up to a length bound without "
       "de-duplication, and a preemption-bounded DFS over thread schedules executed by real threads on the real mutex "
       "under a baton scheduler (one fresh process per schedule, failing schedules replayed). Every call's outcome is "
@@ -75,7 +82,8 @@ check("C15", "exploration",
 
 check("C16", "exploration",
       "Full product of the ID value alphabet x both helper functions x four deserialiser paths on the real serde_with "
-      "module; every ID type expression of list depth <= 2 (thorough 3) x four placements generated, inspected at token "
+      "module; every ID type expression of list depth <= 2 (thorough 3) x six placements (plain, alias, spread fragment, variant, "
+      "and - with @include - plain and variant), under the default and three other option sets, generated, inspected at token "
       "level (helper on exactly the ID fields), compiled and fed string / integer / null / wrong-kind / absent vectors.",
       "Trusted: rustc and serde as semantics of the generated code. Also run from an SDL that spells out `scalar ID`.",
       "exhaustive enumeration of value alphabet x deserialiser paths, and of type expressions x placements on compiled generated code",
@@ -84,7 +92,7 @@ check("C16", "exploration",
 check("C05", "model_checking",
       "States = distinct query-document texts of a grammar (all orders of all admissible sets of 1-3 operations and 0-2 "
       "fragments; trivia deviations: tab, LF/CRLF/CR, commas, comments incl. one that looks like an operation, BOM, string "
-      "escapes, non-ASCII, trailing newline or not); transitions = (mode, selected name, normalization, entry point). Model: "
+      "escapes, block strings with the character pairs that end raw Rust strings, non-ASCII, trailing newline or not); transitions = (mode, selected name, normalization, entry point). Model: "
       "QUERY is the source text byte for byte, OPERATION_NAME the unmodified name, modules belong to the selected operation, "
       "derive mode never falls back. Model verdicts are read from the real generator's tokens and validated on compiled "
       "modules (constants and serialised build_query body).",
@@ -94,10 +102,11 @@ check("C05", "model_checking",
       "DESIGN.md 4 C05")
 
 check("C07", "model_checking",
-      "States = schemas of a feature lattice (all subsets up to a size bound of 16 schema constructs, the full set, CORE); "
+      "States = schemas of a feature lattice (all subsets up to a size bound of 19 schema constructs, the full set, CORE) plus the "
+      "schemas and operations harvested from the input spaces of C01, C10, C12 and C16 (which those checks feed as SDL only); "
       "transitions = comparisons of each rendering (3 SDL extensions, bare / data-wrapped JSON, with / without built-in "
       "scalars and __ types, kind-grouped and reversed type orders, extensions folded) with the SDL rendering, for covering "
-      "query / mutation / subscription operations and two option sets. Relational oracle: identical token streams (identical "
+      "query / mutation / subscription operations and three option sets. Relational oracle: identical token streams (identical "
       "after sorting items for permuted orders).",
       "Trusted: the pack's own SDL / introspection renderers (a wrong renderer shows up as a difference and is triaged).",
       "explicit-state enumeration of a schema feature lattice with a relational (SDL vs JSON) oracle on the real generator",
@@ -105,17 +114,20 @@ check("C07", "model_checking",
 
 check("C12", "model_checking",
       "States = labelled digraphs of input object types (n = 1, 2 complete over 5 edge kinds and @oneOf flags, n = 3 over 3-4 "
-      "edge kinds on all 9 ordered pairs, n = 4 rings / chords) and 14 fragment recursion patterns. Model = finite-size rule "
+      "edge kinds on all 9 ordered pairs, n = 4 rings / chords; the small graphs also under other options, from the JSON form of the "
+      "schema and with keyword / camelCase / underscore field names) and 29 fragment recursion patterns (incl. recursion entered through "
+      "top-level inline fragments / spreads and spreads next to siblings of every kind). Model = finite-size rule "
       "on the emitted items (by-value containment, cut by Vec and Box). Conformance: a covering subset and its Box-stripped "
       "twins are compiled; rustc's E0072 verdict must agree with the model in both directions; recursive values round-trip "
-      "through Variables with JSON that shows no trace of the Box.",
+      "through Variables with JSON that shows no trace of the Box (with skip_serializing_none: a None member is omitted, boxed or not).",
       "Trusted: rustc's size check as ground truth for the compiled subset; the syn-based edge report.",
       "explicit-state enumeration of type graphs against a finite-size model validated against rustc",
       "DESIGN.md 4 C12")
 
 check("C14", "model_checking",
-      "Finite space enumerated completely: 3^4 deprecation assignments x {SDL, JSON} x 5 selection styles x 4 strategies "
-      "(+ the reason alphabet on every field, + a block-string reason). Model = the three documented rules, evaluated on "
+      "Finite space enumerated completely: 3^4 deprecation assignments x {SDL, JSON, SDL with the fields declared in `extend type`} x 6 "
+      "selection styles (direct, aliased, fragment, variant, on the interface, the object's own current copy of a field the interface "
+      "deprecates) x 4 strategies (+ a second type set, + another option set, + the reason alphabet on every field, + a block-string reason). Model = the three documented rules, evaluated on "
       "the generator's tokens (attribute presence, note == reason byte for byte, omission under deny, nothing else "
       "touched); the deny clause is validated on compiled code with payloads that contain the omitted fields.",
       "Trusted: syn's parse of attributes; rustc/serde for the conformance runs.",
@@ -123,8 +135,8 @@ check("C14", "model_checking",
       "DESIGN.md 4 C14")
 
 check("C03", "exploration",
-      "On compiled generated code: for every operation of the bounded operation space (other-variant off, and on wherever "
-      "an abstract position exists) one conforming payload per runtime-type choice and every single-point corruption of "
+      "On compiled generated code: for every operation of the bounded operation space and of the schema lattice (other-variant off, and on "
+      "wherever an abstract position exists; single-item operations also under rust normalization + skip-none) one conforming payload per runtime-type choice and every single-point corruption of "
       "it (null / missing at non-null, non-list at list, each wrong JSON kind at each scalar, non-object at object, "
       "__typename unknown / deleted / non-string / swapped). Forbidden payloads must be rejected; unknown __typename must be "
       "an error or, with the option on, yield Unknown; a swapped known __typename must select its own variant.",
@@ -137,14 +149,18 @@ check("C04", "exploration",
       "On compiled generated code: variables of every input type expression (10 named types x all modifier placements to "
       "list depth 2, thorough 3), special variable names, x skip_serializing_none x normalization; every assignment within "
       "the deviation bound is deserialised into Variables (expressibility) and serialised via build_query; the output must "
-      "equal the reference Variables model (exact key set, schema names, @oneOf single key, None omitted or null).",
+      "equal the reference Variables model (exact key set, schema names, @oneOf single key, None omitted or null). Conversely every "
+      "INVALID neighbour of the richest assignments (null / missing key at each non-null position, @oneOf with a null, no or two members) "
+      "must be refused by Deserialize - otherwise a Variables value exists that serialises to invalid JSON.",
       "Trusted: the reference Variables model; serde's derive as semantics of the generated types.",
       "bounded exhaustive enumeration of variable assignments on compiled generated code against a reference model",
       "DESIGN.md 4 C04")
 
 check("C09", "exploration",
-      "Relational check on compiled code: collision-rich operations x every wire-neutral option set (quick: default + all "
-      "single and pairwise deviations; thorough: the full product of 7 dimensions) x every payload vector, single-point "
+      "Relational check on compiled code: collision-rich operations (incl. one whose name is not CamelCase) x every wire-neutral option "
+      "set (quick: default + all single and pairwise deviations; thorough: the full product of 7 dimensions), repeated under each base "
+      "setting of the non-neutral options (skip-none, other-variant, deprecation), plus every single-item operation of C01's space under "
+      "the default and one alternative per dimension; x every payload vector, single-point "
       "corruption and variables assignment; acceptance, re-serialised payload and serialised variables must equal those "
       "under the default options.",
       "Trusted: nothing beyond rustc/serde; the oracle is equality between option sets. Extern enums are consumer-supplied "
@@ -156,14 +172,18 @@ check("C10", "exploration",
       "On compiled generated code: enum definitions over a naming alphabet (case styles, all keywords, Other-lookalikes; "
       "singles, pairs, mixed sets) x normalization x three positions (response field, variable, input field) x a string "
       "alphabet (schema values, near-misses, empty, blank, non-ASCII, long) and non-string values, with two sibling enums in every module. Every string must "
-      "deserialise and serialise back to itself; schema values get distinct non-catch-all variants.",
+      "deserialise and serialise back to itself; schema values get distinct non-catch-all variants and never the variant named after "
+      "another value (value sets include pairs whose string order differs from their identifier order); a subset again under other derives, "
+      "skip-none, other-variant and from the JSON form of the schema.",
       "Trusted: Debug output of the generated enum to tell variants apart.",
       "bounded exhaustive enumeration of enum definitions x strings on compiled generated code",
       "DESIGN.md 4 C10")
 
 check("C11", "exploration",
       "Finite space enumerated completely: 54 keywords (strict, reserved, weak; editions 2015-2024), 14 case styles, 10 "
-      "controls x 8 name positions (incl. ID-typed fields and aliases of optional IDs), plus every keyword in other case styles at the positions that snake_case it; one generated module per (name, position), compiled and run; the wire key / string must "
+      "controls x 10 name positions (incl. ID-typed fields, aliases of optional IDs, an alias of the field named like the alias's own Rust "
+      "field, a recursive input field), schema-borne names also from introspection JSON and input-side names also under rust normalization, "
+      "plus every keyword in other case styles at the positions that snake_case it; one generated module per (name, position), compiled and run; the wire key / string must "
       "be exactly the GraphQL name.",
       "Trusted: rustc (edition 2021) and serde.",
       "exhaustive enumeration of names x positions on compiled generated code",
@@ -172,7 +192,8 @@ check("C11", "exploration",
 check("C02", "exploration",
       "rustc is the observer. lib form: every operation of the bounded operation space + feature operations under every "
       "combination of deprecation strategy, other-variant, skip-none and normalization + targeted families (variable "
-      "defaults, multi-operation documents, same type name by two paths, list of ID); derive form: real "
+      "defaults, multi-operation documents, same type name by two paths, list of ID; the shared schema carries keyword-named, camelCase, "
+      "recursive, defaulted and conditional (@skip / @include) members in combination); derive form: real "
       "#[derive(GraphQLQuery)] in crates whose only dependency is graphql_client; cli form: files written by the real "
       "binary mounted as modules. Generation must succeed, the output must parse, rustc must report no error for the case.",
       "Trusted: rustc. The supported subset is defined by the case generator (reference-valid documents, names distinct "
@@ -181,7 +202,8 @@ check("C02", "exploration",
       "DESIGN.md 4 C02")
 
 check("C19", "fault_enumeration",
-      "Every setting of 13 dimensions (12 flags + a pre-existing, longer destination file) of the real `graphql-client generate` binary within the deviation bound of the "
+      "Every setting of 15 dimensions (12 flags, a pre-existing longer destination file, the schema file form .graphql / .graphqls / .gql / "
+      ".json, the query file's bytes LF / CRLF / comments+tabs) of the real `graphql-client generate` binary within the deviation bound of the "
       "default invocation (quick 3, thorough 4), two query file names, output placement, formatting; the written file must "
       "be the header plus exactly the library's token stream for the options the flag table prescribes, at "
       "<out or query dir>/<stem>.rs, with nothing else in the tree changed. Failure clause: instances of every invalidating "
@@ -195,17 +217,19 @@ check("C19", "fault_enumeration",
 check("C20", "fault_enumeration",
       "Real `graphql-client introspect-schema` against a scripted loopback endpoint: all flag combinations and every "
       "header string of the alphabet for the request model (one POST, exact JSON body, headers, bearer token; invalid "
-      "header strings refused before any connection); 19 server behaviours x {stdout, new file, existing file}; connection "
+      "header strings refused before any connection; header values with commas, semicolons, quotes and further colons; --no-ssl against "
+      "plain http changes nothing); 26 server behaviours (incl. bodies that only begin with a JSON value, chunked and whitespace-padded replies) x {stdout, new file, existing file}; connection "
       "closed after k bytes for every k of a content-length reply. Success => served JSON, and the written file generates "
       "the same code as the schema's SDL; failure => non-zero exit, existing output byte-identical.",
-      "Trusted: the mock server's log of what it received. No TLS endpoint (--no-ssl not exercised).",
+      "Trusted: the mock server's log of what it received. No TLS endpoint. Header names that are not HTTP tokens cannot be carried by any client and are not judged.",
       "exhaustive fault / environment enumeration against the real binary with a scripted mock endpoint",
       "DESIGN.md 4 C20, appendix D")
 
 check("C18", "model_checking",
       "Model = flag -> option table. States = attribute token streams enumerated completely within the stated alphabet "
       "(every subset of the optional keys x orders x 4 string-literal styles x separators / trailing comma; every permutation "
-      "of small subsets; every value of every key's domain alone and in pairs; surrounding attributes; struct visibilities; "
+      "of small subsets; every value of every key's domain alone and in pairs - incl. values and directory names that contain the words of "
+      "flags and of other keys; surrounding attributes; struct visibilities; "
       "manifest-relative directories), compiled INSIDE graphql_query_derive through hook H2 so that the crate's real "
       "option-building functions are exercised; each is compared with the table through the token stream the real generator "
       "emits on an option-revealing fixture. Conformance: real derive expansions in graphql_client-only crates judged by "
